@@ -1009,7 +1009,7 @@ fn k_positions(total: usize) -> Vec<usize> {
 }
 
 fn gen16(seed: u64, idx: u64, _t: Tier) -> J {
-	let per = 110u64;
+	let per = 140u64;
 	let group = idx / per;
 	let ki = (idx % per) as usize;
 	let mut r = Rng::derive(seed, "C16", group);
@@ -1043,7 +1043,38 @@ fn gen16(seed: u64, idx: u64, _t: Tier) -> J {
 		c.files.push(FileSpec { name: name.clone(), kind: "file".into(), bytes, plan: Some(ReadPlan::default()) });
 		c.args.push(name);
 	}
-	let ks = k_positions(total_guess);
+	let mut ks = k_positions(total_guess);
+	// Faults placed right at (and one byte around) the point where one input's output ends
+	// and xt has just flushed: the consumer leaves exactly between two inputs.
+	{
+		let mut end = 0usize;
+		let mut ends = vec![];
+		for a in c.args.iter().filter(|a| *a == "-" || a.starts_with("in")) {
+			let (bytes, f) = if a == "-" {
+				(c.stdin.clone().unwrap_or_default(), None)
+			} else {
+				match c.files.iter().find(|x| x.name == *a) {
+					Some(x) => (x.bytes.clone(), procsim::extension_format(a)),
+					None => continue,
+				}
+			};
+			let (v, out) = crate::exec::t0(&bytes, f, to);
+			if !v.is_ok() {
+				break;
+			}
+			end += out.len();
+			ends.push(end);
+		}
+		if !many && c.stdin.is_some() && ends.is_empty() {
+			// (a single input on stdin with -f: no file operand in the list)
+		}
+		ends.pop(); // the end of the last input is `total`, already present
+		for e in ends {
+			ks.extend([e.saturating_sub(1), e, e + 1]);
+		}
+		ks.sort_unstable();
+		ks.dedup();
+	}
 	let k = ks[ki % ks.len()];
 	let errno = *r.pick(&[EPIPE, EPIPE, EPIPE, ENOSPC, EIO]);
 	// vary errno with the position index as well so that every k meets every errno over a group
@@ -1084,13 +1115,13 @@ fn fidelity16(ev: &mut Eval, c: &ProcCase, p: &procsim::Parsed, what: &str) {
 				return;
 			}
 			if o.signal != Some(13) {
-				ev.violate(format!("epipe/not-sigpipe/{}", o.status().replace(' ', "-")), format!("xt {args}: REAL pipe, reader closed after {k} of {} bytes: xt ended with {} instead of SIGPIPE; stderr {:?}", ex.maximal.len(), o.status(), show(&o.stderr)));
+				ev.violate(format!("real/epipe/not-sigpipe/{}", o.status().replace(' ', "-")), format!("xt {args}: REAL pipe, reader closed after {k} of {} bytes: xt ended with {} instead of SIGPIPE; stderr {:?}", ex.maximal.len(), o.status(), show(&o.stderr)));
 			}
 			if !o.stderr.is_empty() {
-				ev.violate("epipe/stderr-not-empty", format!("xt {args}: REAL pipe closed after {k} bytes; stderr holds {:?}", show(&o.stderr)));
+				ev.violate("real/epipe/stderr-not-empty", format!("xt {args}: REAL pipe closed after {k} bytes; stderr holds {:?}", show(&o.stderr)));
 			}
 			if o.stdout != ex.maximal[..k] {
-				ev.violate("accepted-bytes", format!("xt {args}: REAL pipe: the {k} bytes the reader took are not the first {k} expected bytes"));
+				ev.violate("real/accepted-bytes", format!("xt {args}: REAL pipe: the {k} bytes the reader took are not the first {k} expected bytes"));
 			}
 			// The stub must tell the same story.
 			let mut stub = real_case.clone();
